@@ -693,7 +693,7 @@ class World:
             orig_m = CB._recv_message
 
             def _recv_message(conn, typ, msgseq, msg):
-                dup = conn.bitfield_msg.contains(msgseq) if conn.bitfield_msg.current_seqnum != 0 else False
+                dup = w._guard(lambda: conn.bitfield_msg.contains(msgseq) if conn.bitfield_msg.current_seqnum != 0 else False)
                 for m in mon_msg:
                     w._guard(m.on_recv_message, conn, typ, msgseq, msg, dup)
                 return orig_m(conn, typ, msgseq, msg)
